@@ -3,4 +3,4 @@
 #[cfg(kani)]
 mod prog;
 #[cfg(kani)]
-mod gate;
+mod stamps;
